@@ -14,8 +14,11 @@ STORE_COMPONENTS = {
              'subprocess.check_output(md5sum|sha1sum) inside dawgie.db.util answered by hashlib in coreutils format (49 runs in 50)',
              'tempfile.mkstemp inside dawgie.db.util: deterministic names', 'comms.release wrapped for observation only (expectation snapshot while the lock is held)',
              'generated algorithm engines (worlds.aegen) as the user code', 'clock (sim.boot.SimDateTime)',
-             'crash enumeration only: counting wrappers for os/open/shutil/tempfile/subprocess inside dawgie.db.util, dbm.dumb._io/_os, comms.Worker._send; '
-             'EXDEV configuration: os.rename inside a private clone of shutil raises EXDEV so that shutil.move takes its real copy+unlink path',
+             'crash enumeration only: numbering wrappers (no behaviour change) for os/open/shutil/tempfile/subprocess inside dawgie.db.util, dbm.dumb._io/_os, '
+             'comms.Worker._send/do; a crash image = copy of the store directory taken by the wrapper immediately BEFORE the step (kernel-visible state, i.e. what a kill '
+             'leaves); a new incarnation = the real DBI.open() on the image; real fork + os._exit(137) victims only as calibration of that equivalence (1 enumeration run in 4)',
+             'cross-device configuration: os.rename inside a private clone of shutil (same code objects) raises EXDEV so that the real shutil.move takes its real copy+unlink path; '
+             'ENOSPC: a write-like numbered step raises OSError(ENOSPC) instead of executing',
              'db.post (PostgreSQL) backend: NOT exercised'],
 }
 
@@ -70,7 +73,9 @@ def with_crash(mix, n):
 
 # one run must stay well below 4 s even under 16-way load: the run server executes 20 runs per forked child
 # with a 130 s limit
-ENUM = dict(phases=1, enum=1, enum_clients=2, ops_per_client=2, content='pool', between=1, max_images=70)
+# the enumerated phase is ONE update by one client, so that the image budget is never exhausted: every I/O step of
+# the generated update is a checked crash point (concurrent crash scenarios are the business of the 'faults' batches)
+ENUM = dict(phases=1, enum=1, enum_clients=1, enum_ops=1, ops_per_client=2, content='pool', between=1, max_images=72, real_kill=(1, 4))
 
 PROPS = {
     'C07': dict(
@@ -80,17 +85,17 @@ PROPS = {
                     'of the enumerated phases and opened by a new incarnation (real DBI.open, everything read back); the image-equals-real-kill equivalence is itself tested '
                     'with forked victims ended by os._exit(137); followed by seeded search (kills, resets, crashes at step boundaries, ENOSPC, purge); '
                     'exhaustive over the crash positions of each generated update, not over updates'),
-        level_note=LN + '; crash images are copies of the directory taken before the step (kernel-visible state = what SIGKILL leaves), validated against real kills in 1 run of 3',
+        level_note=LN + '; crash images are copies of the directory taken before the step (kernel-visible state = what SIGKILL leaves), validated against real kills in 1 crash-enumeration run of 4',
         probes=['novelty_new', 'novelty_repeat', 'crash_point_worker_side', 'crash_point_pipeline_side', 'crash_between_move_and_record',
                 'crash_between_values_of_one_update', 'crash_image_checked', 'real_kill_equals_image', 'purge_deleted_orphans', 'references_checked_during_update',
                 'crash_inside_cross_device_copy'],
         batches=[
-            store('fault-free', 160, 3200, prop='C07', **C07_MIX),
-            store('crash-enum', 48, 960, prop='C07', **ENUM, **{k: v for k, v in C07_MIX.items() if k != 'content'}),
-            store('crash-enum-cross-device', 24, 480, prop='C07', exdev=True, **ENUM, **{k: v for k, v in C07_MIX.items() if k != 'content'}),
-            store('faults', 140, 2800, prop='C07', crash_mid=(1, 6), enospc=(1, 150), **FAULTS,
+            store('fault-free', 160, 1600, prop='C07', **C07_MIX),
+            store('crash-enum', 100, 1000, prop='C07', **ENUM, **{k: v for k, v in C07_MIX.items() if k != 'content'}),
+            store('crash-enum-cross-device', 40, 400, prop='C07', exdev=True, **ENUM, **{k: v for k, v in C07_MIX.items() if k != 'content'}),
+            store('faults', 140, 1400, prop='C07', crash_mid=(1, 6), enospc=(1, 150), **FAULTS,
                   **{k: v for k, v in with_crash(C07_MIX, 3).items()}),
-            store('faults-cross-device', 40, 800, prop='C07', exdev=True, crash_mid=(1, 6), enospc=(1, 60), **FAULTS,
+            store('faults-cross-device', 40, 400, prop='C07', exdev=True, crash_mid=(1, 6), enospc=(1, 60), **FAULTS,
                   **{k: v for k, v in with_crash(C07_MIX, 3).items()}),
         ],
         wall=dict(quick=75, thorough=900),
@@ -99,9 +104,9 @@ PROPS = {
         level='exploration', rule=STORE_RULE, components=STORE_COMPONENTS, level_text=LT, level_note=LN,
         probes=['load_found_entry', 'load_nothing_matches', 'load_of_parent', 'version_bump', 'reopen', 'remove', 'update_done'],
         batches=[
-            store('fault-free', 300, 6000, prop='C06', **C06_MIX),
-            store('faults', 220, 4400, prop='C06', crash_mid=(1, 8), **FAULTS, **with_crash(C06_MIX, 2)),
-            store('crash-enum', 16, 320, prop='C06', **ENUM, **C06_MIX),
+            store('fault-free', 300, 3000, prop='C06', **C06_MIX),
+            store('faults', 220, 2200, prop='C06', crash_mid=(1, 8), **FAULTS, **with_crash(C06_MIX, 2)),
+            store('crash-enum', 30, 300, prop='C06', **ENUM, **C06_MIX),
         ],
         wall=dict(quick=75, thorough=900),
     ),
@@ -109,8 +114,8 @@ PROPS = {
         level='exploration', rule=STORE_RULE, components=STORE_COMPONENTS, level_text=LT, level_note=LN,
         probes=['catalogue_checked_after_reopen', 'next_checked_with_entries', 'remove_with_bystanders', 'reset_with_entries', 'trace_with_entries', 'consume'],
         batches=[
-            store('fault-free', 320, 6400, prop='C08', **C08_MIX),
-            store('faults', 220, 4400, prop='C08', crash_mid=(1, 8), **FAULTS, **with_crash(C08_MIX, 2)),
+            store('fault-free', 320, 3200, prop='C08', **C08_MIX),
+            store('faults', 220, 2200, prop='C08', crash_mid=(1, 8), **FAULTS, **with_crash(C08_MIX, 2)),
         ],
         wall=dict(quick=75, thorough=900),
     ),
@@ -121,8 +126,8 @@ PROPS = {
         level_note=LN,
         probes=['find_nonempty', 'find_range_nonempty', 'find_via_front_end', 'pages_more_than_one', 'facet_nonempty', 'scrub_checked'],
         batches=[
-            store('fault-free', 320, 6400, prop='C17', **C17_MIX),
-            store('faults', 220, 4400, prop='C17', **FAULTS, **C17_MIX),
+            store('fault-free', 320, 3200, prop='C17', **C17_MIX),
+            store('faults', 220, 2200, prop='C17', **FAULTS, **C17_MIX),
         ],
         wall=dict(quick=75, thorough=900),
     ),
